@@ -745,6 +745,10 @@ class InterpMixin:
         return self.binop(type(e.op), self.eval(e.left, scope), self.eval(e.right, scope))
 
     def binop(self, op, a, b):
+        if isinstance(a, (SymOpt, SymEnum)):
+            a = self.concretize(a)
+        if isinstance(b, (SymOpt, SymEnum)):
+            b = self.concretize(b)
         if isinstance(a, (SObj, EnumMember)) or isinstance(b, (SObj, EnumMember)):
             raise Unsupported("operator on interpreted objects")
         if op is ast.Mod and isinstance(a, str):
